@@ -140,7 +140,9 @@ def allocOracle (bits : Nat) (f : Array Nat) (prev hint : Option Nat) (total : N
   | [cs, fh] =>
     match cs.toNat?, fatOf fh with
     | some c, some f' =>
-      if c < 2 ∨ n ≤ c then some s!"C03 alloc-bad-cluster returned={c} total={total}"
+      -- known quirk (Props/C03fat `alloc_wraparound_counterexample`): FAT12 `find_free` with start == end == 2
+      if bits = 12 ∧ total = 0 ∧ n ≤ c then some s!"C03 alloc-fat12-zero-clusters returned={c} total=0"
+      else if c < 2 ∨ n ≤ c then some s!"C03 alloc-bad-cluster returned={c} total={total}"
       else if specEntry bits f c ≠ 0 then some s!"C03 alloc-bad-cluster returned={c} not-free-before"
       else if f'.size ≠ f.size then some "C03 alloc-frame length-changed"
       else
